@@ -190,9 +190,11 @@ PROPS = {
                          ["defaults_tie", "effective_defaults", "effective_absent_pool", "effective_no_config", "effective_methods",
                           "effective_keeps_rest", "effective_idem", "method_table_sound", "method_table_complete",
                           "method_table_unique", "method_table_none"]] +
+                        [("GcpVerif.Proofs.ConfigJson", "GcpVerif.Config." + n) for n in
+                         ["parse_render", "parse_render_pool", "parse_render_method", "keysOk_of_sublist"]] +
                         [("GcpVerif.Proofs.Ties", "GcpVerif.Ties." + n) for n in
                          ["config_not_mutated_not_aliased", "first_update_wins_guard", "pool_defaults_tie"]],
-            "leanchecker": ["GcpVerif.Proofs.Config", "GcpVerif.Proofs.Ties"],
+            "leanchecker": ["GcpVerif.Proofs.Config", "GcpVerif.Proofs.ConfigJson", "GcpVerif.Proofs.Ties"],
             "trusted_base": CFG_TB, "assumptions": []},
     "C18": {"harnesses": ["pb", "pbflags"], "lake_targets": ["GcpVerif"],
             "theorems": [("GcpVerif.Proofs.Prober", "GcpVerif.Prober." + n) for n in
